@@ -319,6 +319,8 @@ def cold_run(exprs, hashseed: int):
 def history(rng, length):
     """ops with equal-but-differently-built markers recurring"""
     twins = [('"3.8" < python_version', 'python_version > "3.8"'), ('python_version >= "3.10"', 'python_version >= "3.10.0"'),
+             ('python_version > "3.8"', 'python_version > "3.8.0"'), ('python_version == "3.8"', 'python_version == "3.8.0"'),
+             ('python_full_version >= "3.8.1"', 'python_full_version >= "3.8.1.0"'), ('python_version != "3.9"', 'python_version != "3.9.0"'),
              ('os_name == "nt" or os_name == "posix"', 'os_name == "posix" or os_name == "nt"'),
              ('python_full_version >= "3.8"', 'python_full_version >= "3.8.0"'), ('"lin" in sys_platform', 'sys_platform in "lin"')]
     pool = [mk.marker_text(rng, rng.choice([0, 1, 2])) for _ in range(max(4, length // 3))]
@@ -326,6 +328,14 @@ def history(rng, length):
         pool += [a, b]
     ops = []
     results = []
+    # the same operation on equal-but-differently-built operands, back to back
+    partners = ['python_version == "3.8"', 'python_version >= "3.8"', 'python_full_version >= "3.8.1"', 'python_version != "3.8"',
+                'python_version < "3.10"', 'python_full_version < "3.9.5"', 'os_name == "posix"', 'os_name == "java"']
+    for a, b in rng.sample(twins, 3):
+        part = rng.choice(partners)
+        kind = rng.choice(["and", "or"])
+        ops.append(E(kind, E("leaf", a), E("leaf", part)))
+        ops.append(E(kind, E("leaf", b), E("leaf", part.replace('"3.8"', '"3.8.0"') if rng.random() < 0.5 else part)))
     for _ in range(length):
         k = rng.random()
         a, b = rng.choice(pool), rng.choice(pool)
@@ -369,9 +379,9 @@ def run_c10(run: core.Run, n_hist: int, length: int, seeds=(0, 1, 2)) -> None:
             except Exception as ex:  # noqa: BLE001
                 warm.append("raise:" + type(ex).__name__)
         # (a) warm implementation vs the model, which has no caches at all
-        for e, w in zip(ops, warm):
+        for i, (e, w) in enumerate(zip(ops, warm)):
             if w is not None:
-                run.add(core.Case("warm-vs-model", "m.expr\t" + e.tokens(), w))
+                run.add(core.Case("warm-vs-model", "m.expr\t" + e.tokens(), w, ctx=(ops, i)))
         # (b) a probe alone in a fresh interpreter, under several hash seeds
         idx = [i for i, w in enumerate(warm) if w is not None]
         probes = rng.sample(idx, min(len(idx), 6))
@@ -385,6 +395,28 @@ def run_c10(run: core.Run, n_hist: int, length: int, seeds=(0, 1, 2)) -> None:
                                           f"{cold.split(chr(9))[-1]!r} alone in a fresh interpreter (PYTHONHASHSEED={seed})",
                                           {"op": "history", "history": [e.to_json() for e in ops[:i + 1]], "hashseed": seed}))
     run.extra.update(oracle_evaluations=n_oracle, time_budget_skips=skips)
+
+
+def search(prop: str, run: core.Run) -> None:
+    """C10: the model has no caches, so a warm result that differs from the model is compared with the
+    implementation's own cold result; if they differ, that history is the failing input"""
+    if prop != "C10":
+        return
+    by_line = {}
+    for c in run.cases:
+        if c.ctx is not None and c.stream == "warm-vs-model":
+            by_line.setdefault((c.line, c.impl), c)
+    for d in run.disagreements[:12]:
+        c = by_line.get((d["op"], d["impl"]))
+        if c is None:
+            continue
+        ops, i = c.ctx
+        cold = cold_run([ops[i]], 0)[0]
+        if cold != d["impl"]:
+            run.fail(core.Failure(f"hist|{ops[i].show()}|{i}",
+                                  f"{ops[i].show()} gives {d['impl'].split(chr(9))[-1]!r} after {i} earlier operations but "
+                                  f"{cold.split(chr(9))[-1]!r} alone in a fresh interpreter",
+                                  {"op": "history", "history": [e.to_json() for e in ops[:i + 1]], "hashseed": 0}))
 
 
 def run_prop(prop: str, run: core.Run) -> None:
